@@ -75,6 +75,91 @@ fn lossy_f64_sort_value(doc: &Value, sort: &[Value]) -> bool {
   false
 }
 
+/// Re-issue the first deviating page request with execution=bm25; true when the exhaustive
+/// answer to that very request is the expected slice of the unpaged result.
+fn pruning_to_blame(reader: &searchlite_core::api::IndexReader, base: &Value, page: usize, w: &paging::Walk, full: &[HitSig]) -> bool {
+  let mut offset = 0usize;
+  for (i, p) in w.pages.iter().enumerate() {
+    let got: Vec<&String> = p.hits.iter().map(|h| &h.doc_id).collect();
+    let exp: Vec<&String> = full.iter().skip(offset).take(page).map(|h| &h.0).collect();
+    if got != exp {
+      let mut req = base.clone();
+      req["limit"] = json!(page);
+      if i > 0 {
+        req["cursor"] = json!(w.cursors[i - 1]);
+      }
+      paging::apply_exec(&mut req, &("bm25".to_string(), None));
+      return match paging::call(reader, &req) {
+        Call::Ok(r) => r.hits.iter().map(|h| &h.doc_id).collect::<Vec<_>>() == exp,
+        _ => false,
+      };
+    }
+    offset += p.hits.len();
+  }
+  false
+}
+
+/// The request that was rejected as "stale or invalid cursor" is accepted under execution=bm25.
+fn cursor_valid_under_bm25(reader: &searchlite_core::api::IndexReader, base: &Value, page: usize, w: &paging::Walk) -> bool {
+  let Some(cur) = w.cursors.last() else { return false };
+  let mut req = base.clone();
+  req["limit"] = json!(page);
+  req["cursor"] = json!(cur);
+  paging::apply_exec(&mut req, &("bm25".to_string(), None));
+  matches!(paging::call(reader, &req), Call::Ok(_))
+}
+
+/// Score bits of the document the last cursor points at, observed over un-cursored variants of the
+/// same request (limits 1..big, all execution strategies): true when they are not all equal
+/// but within a few ULPs of each other.
+fn cursor_doc_score_varies(reader: &searchlite_core::api::IndexReader, base: &Value, big: usize, w: &paging::Walk) -> bool {
+  let Some(doc) = w.pages.last().and_then(|p| p.hits.last()).map(|h| h.doc_id.clone()) else { return false };
+  let mut bits: Vec<u32> = Vec::new();
+  for exec in [("bm25", None), ("wand", None), ("bmw", None), ("bmw", Some(1usize)), ("bmw", Some(3usize))] {
+    for limit in [1usize, 2, 3, 4, 5, 6, 7, 8, big] {
+      let mut req = base.clone();
+      req["limit"] = json!(limit);
+      paging::apply_exec(&mut req, &(exec.0.to_string(), exec.1));
+      if let Call::Ok(r) = paging::call(reader, &req) {
+        if let Some(h) = r.hits.iter().find(|h| h.doc_id == doc) {
+          bits.push(h.score.to_bits());
+        }
+      }
+    }
+  }
+  let (lo, hi) = (bits.iter().min().copied().unwrap_or(0), bits.iter().max().copied().unwrap_or(0));
+  hi != lo && hi - lo <= 8
+}
+
+/// Index of the first page whose ids are not the expected slice of the unpaged result.
+fn first_deviation(w: &paging::Walk, full: &[HitSig], page: usize) -> Option<usize> {
+  let mut offset = 0usize;
+  for (i, p) in w.pages.iter().enumerate() {
+    let got: Vec<&String> = p.hits.iter().map(|h| &h.doc_id).collect();
+    let exp: Vec<&String> = full.iter().skip(offset).take(page).map(|h| &h.0).collect();
+    if got != exp {
+      return Some(i);
+    }
+    offset += p.hits.len();
+  }
+  None
+}
+
+fn jitter_at_first_deviation(w: &paging::Walk, full: &[HitSig], page: usize) -> bool {
+  let Some(i) = first_deviation(w, full, page) else { return false };
+  let mut near: Vec<HitSig> = paging::hit_sigs(&w.pages[i]);
+  if i > 0 {
+    near.extend(paging::hit_sigs(&w.pages[i - 1]));
+  }
+  has_ulp_jitter(full, &near)
+}
+
+/// Some id carries score bits 1..8 ULPs away from its bits in the reference list.
+fn has_ulp_jitter(reference: &[HitSig], got: &[HitSig]) -> bool {
+  let m: std::collections::HashMap<&String, u32> = reference.iter().map(|h| (&h.0, h.1)).collect();
+  got.iter().any(|(id, b)| m.get(id).map(|r| r != b && (*r as i64 - *b as i64).unsigned_abs() <= 8).unwrap_or(false))
+}
+
 fn classify_diff(full: &[HitSig], got: &[HitSig]) -> &'static str {
   let full_ids: Vec<&String> = full.iter().map(|h| &h.0).collect();
   let got_ids: Vec<&String> = got.iter().map(|h| &h.0).collect();
@@ -108,12 +193,12 @@ fn main() {
     "the true match count is the hit count of the unpaged execution=bm25 request; when the independent evaluator (simple queries/filters only) disagrees with it the walk's totals are not judged (matching semantics belong to C07/C08)".into(),
     "total_hits_estimate is required to be exact only for execution=bm25 (the documented full evaluation); for wand/bmw only `<= true count` is judged".into(),
     "two sort plans are 'different' when their resolved (field, order) lists differ; [] == [_score desc] == [{field:_score}] are the same plan and not replayed against each other".into(),
-    "after a delete-only commit a replayed cursor may be rejected or must return exactly the next page of the new result list after the cursor document; if the cursor document itself was deleted and the cursor is still accepted the case is not judged".into(),
+    "after a delete-only commit a replayed cursor may be rejected or must return exactly the next page of the new result list after the cursor document (ids exact, scores within 8 ULPs - bitwise score equality is judged by the walk comparison); if the cursor document itself was deleted and the cursor is still accepted the case is not judged".into(),
     "compaction of a single-segment index is a documented no-op and is not expected to invalidate cursors".into(),
     "cursors of another index (same generation number) are out of scope".into(),
   ];
   let quick = ctx.quick();
-  let n = ctx.n(80, 2000);
+  let n = ctx.n(400, 6000);
   ctx.run_cases("walks", n, |rng: &mut Rng, l: &mut Local, scratch| {
     let n_docs = if quick { rng.urange(8, 40) } else { rng.urange(8, 60) };
     let corpus = paging::gen_corpus(rng, n_docs, 4);
@@ -245,8 +330,15 @@ fn main() {
         if p.hits.len() > page {
           l.fail("page-longer-than-limit", format!("page {i} has {} hits for limit {page}", p.hits.len()), case(json!({"page": i})));
         }
-        judge_total(l, p.total_hits_estimate, "walk page", i);
         got.extend(paging::hit_sigs(p));
+        // a page's total is judged while the walk so far is a prefix of the unpaged result; once the walk
+        // itself deviates (reported below) the returned-count inside the cursor is already wrong
+        let prefix_ok = got.len() <= full_sigs.len() && got.iter().zip(full_sigs.iter()).all(|(a, b)| a.0 == b.0);
+        if prefix_ok {
+          judge_total(l, p.total_hits_estimate, "walk page", i);
+        } else {
+          l.count("page_totals_not_judged_after_walk_deviation", 1);
+        }
       }
       l.count("walks", 1);
       l.count("pages", w.pages.len() as u64);
@@ -271,6 +363,12 @@ fn main() {
           let lossy = last_doc.map(|d| lossy_f64_sort_value(d, &sort)).unwrap_or(false);
           if lossy && stop.contains("stale or invalid cursor") {
             "walk-stopped:sort-cursor:f64-sort-value-does-not-survive-cursor-json-round-trip".to_string()
+          } else if stop.contains("stale or invalid cursor") && paging::sort_uses_score(&sort) && cursor_doc_score_varies(&reader, &base, big, &w) {
+            // the cursor stores the score bits of its document, but the engine does not reproduce them:
+            // the same document gets scores a few ULPs apart depending on limit / execution
+            format!("walk-stopped:cursor-document-score-varies-by-ulps-between-requests:{ck}")
+          } else if exec.0 != "bm25" && stop.contains("stale or invalid cursor") && cursor_valid_under_bm25(&reader, &base, page, &w) {
+            format!("pruned-execution-loses-cursor-document:{}:{ck}", exec.0)
           } else {
             format!("walk-stopped:{ck}:{}", paging::err_stem(stop.trim_start_matches("error: ")))
           }
@@ -285,6 +383,17 @@ fn main() {
             if exec.0 == "bm25" { "bm25" } else { "pruned-execution" },
             match q { Q::Str(_) => "multi-field-query-string", Q::Opaque(_) => "opaque-query", _ => "single-field-clauses" }
           )
+        } else if exec.0 == "bmw" && pruning_to_blame(&reader, &base, page, &w, &full_sigs) {
+          // the same page request answered by exhaustive execution IS the expected slice: the paging
+          // logic is right and the block-max pruned top-k of the page request lost/reordered hits (C09 territory)
+          format!("pruned-page-differs-from-exhaustive-page:{}:{ck}", exec.0)
+        } else if jitter_at_first_deviation(&w, &full_sigs, page) {
+          // a document on (or just before) the first deviating page has a score 1..8 ULPs away from its
+          // score in the unpaged result: near-ties are ordered differently by different requests, so
+          // pages repeat / skip / reorder hits
+          format!("walk-differs-from-unpaged:near-ties-reordered-by-ulp-score-differences-between-requests:{ck}")
+        } else if exec.0 != "bm25" && pruning_to_blame(&reader, &base, page, &w, &full_sigs) {
+          format!("pruned-page-differs-from-exhaustive-page:{}:{ck}", exec.0)
         } else {
           format!("walk-differs-from-unpaged:{kind}:{ck}")
         };
@@ -444,9 +553,24 @@ fn main() {
                 l.count("replays_after_delete_only_continued", 1);
                 let exp: Vec<HitSig> = nf.iter().skip(pos + 1).take(rec.page).cloned().collect();
                 let got = paging::hit_sigs(&r);
-                if got != exp {
+                let same_ids = got.iter().map(|h| &h.0).collect::<Vec<_>>() == exp.iter().map(|h| &h.0).collect::<Vec<_>>();
+                let close = same_ids && got.iter().zip(exp.iter()).all(|(a, b)| (a.1 as i64 - b.1 as i64).unsigned_abs() <= 8);
+                if !close {
+                  // same request under exhaustive execution: is the pruned top-k of this page to blame?
+                  let ex = rec.base["execution"].as_str().unwrap_or("wand").to_string();
+                  let mut breq = req.clone();
+                  paging::apply_exec(&mut breq, &("bm25".to_string(), None));
+                  let pruned = ex != "bm25"
+                    && match paging::call(&reader2, &breq) {
+                      Call::Ok(b) => b.hits.iter().map(|h| &h.doc_id).collect::<Vec<_>>() == exp.iter().map(|h| &h.0).collect::<Vec<_>>(),
+                      _ => false,
+                    };
                   l.fail(
-                    format!("delete-only-commit:wrong-tail:{}", cursor_kind(&rec.sort)),
+                    if ex == "bmw" && pruned {
+                      format!("pruned-page-differs-from-exhaustive-page:{ex}:{}", cursor_kind(&rec.sort))
+                    } else if has_ulp_jitter(nf, &got) {
+                      format!("walk-differs-from-unpaged:near-ties-reordered-by-ulp-score-differences-between-requests:{}", cursor_kind(&rec.sort))
+                    } else if pruned { format!("pruned-page-differs-from-exhaustive-page:{ex}:{}", cursor_kind(&rec.sort)) } else { format!("delete-only-commit:wrong-tail:{}", cursor_kind(&rec.sort)) },
                     "cursor accepted after a delete-only commit but the page is not the next page of the new result list",
                     json!({"case": case(), "got": paging::sigs_json(&got), "expected": paging::sigs_json(&exp)}),
                   );
